@@ -16,7 +16,7 @@ SPECIES_POOL = ["H2", "O2", "H2O", "N2", "OH", "CH4", "CO2", "CH2(S)"]
 
 @st.composite
 def chk_specs(draw, tier="quick"):
-    base = draw(plotgen.plot_specs(ndims=3, max_levels=3, max_cells=1200 if tier == "quick" else 4000, fields=["x"],
+    base = draw(plotgen.plot_specs(thin=True, ndims=3, max_levels=3, max_cells=1200 if tier == "quick" else 4000, fields=["x"],
                                    payload_kinds=("coded",), layouts=("single",)))
     nspec = draw(st.integers(1, 5))
     # non-integral times only: the reader's "value % 1 == 0" test for the optional integer line is a format ambiguity
